@@ -31,7 +31,9 @@ def check(repo, rep, tier):
     rc.r_cache(m, rep, 'R2.5')
     rc.r_nbest(m, rep, 'R2.4')
     rp.r_retrieve_tree(repo, rep, 'R2.4', {'shape'})
+    rp.r_tree_factories(repo, rep, 'R2.4')
     ti = rp.r_category_table(repo, rep, 'R2.5')
+    rp.r_call_locals(repo, rep, 'R2.5')
     if ti:
         rp.r_callbacks(repo, rep, 'R2.5')
         rp.r_sentence_loop(repo, rep, 'R2.4', ti)
